@@ -54,6 +54,7 @@ package stackage
 //@ assumed reflect-based; classification audited against the real function over a value catalogue (C12)
 //@ ensures converted == isCondLike(u)
 //@ ensures C == condOf(u)
+//@ ensures C != nil ==> cwf(C)
 //@ modifies nothing
 
 // ---------------------------------------------------------------------
@@ -336,7 +337,8 @@ package stackage
 //@ let def := WalkDef(r, indices)
 //@ ensures[C07:traverse.ok] def ==> ok == WalkOk(r, indices)
 //@ ensures[C07:traverse.val] def ==> slice == WalkV(r, indices)
-//@ modifies nothing
+//@ ensures[C07:traverse.fail] !ok ==> slice == nil
+//@ modifies G_calls_len, G_calls_fn, G_calls_arg
 
 //@ func (Stack).Traverse
 //@ tags C07
@@ -346,5 +348,6 @@ package stackage
 //@ let def := WalkDef(hdr(r), indices)
 //@ ensures[C07:Traverse.ok] r != nil && def ==> ok == WalkOk(hdr(r), indices)
 //@ ensures[C07:Traverse.val] r != nil && def ==> slice == WalkV(hdr(r), indices)
+//@ ensures[C07:Traverse.fail] !ok ==> slice == nil
 //@ ensures[C17:Traverse.nil] r == nil ==> slice == nil && !ok
-//@ modifies nothing
+//@ modifies G_calls_len, G_calls_fn, G_calls_arg
